@@ -226,14 +226,38 @@ def r3_lookup(prog, rep: Report, im):
             sides = {src(l), src(r)}
             if idx in sides and f"len(self.{sorted_arr})" in sides:
                 miss1 = n
-            elif key in sides:
+            elif key in sides and n.lineno > b.lineno:
                 miss2 = n
         if isinstance(n, ast.Assign) and isinstance(n.value, ast.Subscript) and dotted(n.value.value) == (f.self_name, perm_arr) \
                 and src(n.value.slice) == idx and isinstance(n.targets[0], ast.Name):
             cand = n.targets[0].id
     if miss1 is None:
-        rep.viol("C16.R3", f, "miss:beyond-last", f"no test of the bisect index against len(self.{sorted_arr})",
-                 scenario="a key greater than every interval end raises IndexError instead of KeyError")
+        # alternative idiom: a guard before the bisect, `key > self.<ends>[-1]` -> KeyError; equivalent on a non-empty map,
+        # and on the empty map only if an emptiness test comes first (self.<ends>[-1] raises IndexError there)
+        S = f"{f.self_name}.{sorted_arr}"
+        alt = None
+        for n in walk_own(f.node):
+            if isinstance(n, ast.If) and n.lineno < b.lineno and _raises(n.body) == "KeyError":
+                parts = n.test.values if isinstance(n.test, ast.BoolOp) and isinstance(n.test.op, ast.Or) else [n.test]
+                for k, pt in enumerate(parts):
+                    if isinstance(pt, ast.Compare) and len(pt.ops) == 1:
+                        l, r, op = src(pt.left), src(pt.comparators[0]), pt.ops[0]
+                        if (l == key and r == f"{S}[-1]" and isinstance(op, ast.Gt)) or (l == f"{S}[-1]" and r == key and isinstance(op, ast.Lt)):
+                            empt = {f"not {S}", f"len({S}) == 0", f"0 == len({S})", f"len({S}) < 1"}
+                            earlier = any(src(q) in empt for q in parts[:k])
+                            before = any(isinstance(m, ast.If) and m.lineno < n.lineno and src(m.test) in empt
+                                         and _raises(m.body) == "KeyError" for m in walk_own(f.node))
+                            alt = (n, earlier or before)
+        if alt is not None and alt[1]:
+            rep.ok("C16.R3", f, "miss:beyond-last", f"`{src(alt[0].test)}` raises KeyError before the bisect (emptiness tested first)")
+        elif alt is not None:
+            rep.viol("C16.R3", f, "miss:beyond-last", f"`{src(alt[0].test)}` replaces the test of the bisect index against "
+                     f"len(self.{sorted_arr}) but evaluates self.{sorted_arr}[-1] without an emptiness test",
+                     scenario="any lookup (and `key in m`) on ImmutIntervalMap({}) raises IndexError instead of KeyError / False",
+                     line=alt[0].lineno)
+        else:
+            rep.viol("C16.R3", f, "miss:beyond-last", f"no test of the bisect index against len(self.{sorted_arr})",
+                     scenario="a key greater than every interval end raises IndexError instead of KeyError")
     else:
         op = miss1.test.ops[0]
         left_is_idx = src(miss1.test.left) == idx
